@@ -46,7 +46,13 @@ def run_digest(run_or_runs, responses):
     for r in runs:
         hist.append([list(map(_j, ev)) for ev in r.sim.history])
         hist.append(r.sim.switch_trace)
-    d = digest(hist, [bytes(x) for x in responses])
+    outs = []
+    for x in responses:
+        x = bytes(x)
+        for r in runs:
+            x = x.replace(os.fsencode(os.path.dirname(r.root)), b"<BASE>")
+        outs.append(x)
+    d = digest(hist, outs)
     dump = os.environ.get("VERIF_DUMP_HIST")
     if dump:
         os.makedirs(dump, exist_ok=True)
